@@ -1,2 +1,170 @@
-(* C14 — property theorems (stub). *)
-From Klog Require Import Base.Prelude.
+(* C14 — tags are recognised, matched and totalled as the specification defines.
+   Property theorems only; each is closed by [exact <lemma>] and followed by Print Assumptions.
+   The model is coq/Model/Tags.v; the declarative definitions (spec_tags, tag_at, value_at, carries,
+   matching, agg_expect) are at the top of the respective parts of coq/Proofs/Tags.v.
+   go_is_letter / go_to_lower are the tables of the Go toolchain (coq/Gen/UnicodeTables.v); every theorem is
+   proved for abstract is_letter / to_lower under the hypotheses it needs and instantiated here. *)
+From Klog Require Import Base.Prelude Base.Utf8 Model.Calendar Model.Values Model.Record Gen.UnicodeTables
+  Model.Tags Proofs.TagsUtf8 Proofs.Tags.
+From Coq Require Import Permutation Sorted.
+Open Scope N_scope.
+
+(* ---------- 1. recognition ---------- *)
+
+(* For ALL rune lists without a line feed (a summary line is one line): the matcher modelled on Go's
+   leftmost-first, non-overlapping FindAll of HashTagPattern returns exactly the list the specification
+   determines, and that list is unique. [spec_tags]: a tag is `#` + a non-empty maximal run of name
+   characters; its value is the quoted string (matching quote on the line) or the non-empty maximal run of
+   name characters after `=`; otherwise the value is absent; tags are taken left to right without overlap. *)
+Theorem C14_find_tags_spec : forall s : list N, no_newline N rune_id s ->
+  forall ts, spec_tags go_is_letter N rune_id s ts <->
+             map (match_view N rune_id) (find_all go_is_letter N rune_id s) = ts.
+Proof. exact (find_tags_spec go_is_letter N rune_id go_dq_not_letter go_sq_not_letter). Qed.
+Print Assumptions C14_find_tags_spec.
+
+(* the single-line hypothesis cannot be dropped: Go's negated class [^D]* (D = the double quote) also matches a
+   line feed, so on a text with a line feed inside a quoted value the matcher and the specification differ
+   (witness: # a = D LF D). No summary line holds a line feed, the parser splits the file at them. *)
+Theorem C14_find_tags_all_texts_refuted :
+  exists (s : list N) ts, spec_tags go_is_letter N rune_id s ts /\
+                          map (match_view N rune_id) (find_all go_is_letter N rune_id s) <> ts.
+Proof. exact find_tags_multiline_differs. Qed.
+Print Assumptions C14_find_tags_all_texts_refuted.
+
+(* the same for any meaning of "letter" under which the two quote characters are not letters, and for any
+   symbol type (used below with symbols = rune + the bytes it was decoded from) *)
+Theorem C14_find_tags_spec_any_alphabet : forall (is_letter : N -> bool) (A : Type) (code : A -> N),
+  is_letter ch_dq = false -> is_letter ch_sq = false ->
+  forall s : list A, no_newline A code s ->
+  forall ts, spec_tags is_letter A code s ts <-> map (match_view A code) (find_all is_letter A code s) = ts.
+Proof. exact find_tags_spec. Qed.
+Print Assumptions C14_find_tags_spec_any_alphabet.
+
+(* on bytes: the tags Summary.Tags() takes from a line (any bytes but LF, invalid UTF-8 included) are the
+   specification's tags of its decoded symbols, names lower-cased and values byte for byte as written *)
+Theorem C14_line_tags_spec : forall line : bytes, ~ In ch_nl line ->
+  exists ts, spec_tags go_is_letter sym fst (decode_syms line) ts /\
+             (forall ts', spec_tags go_is_letter sym fst (decode_syms line) ts' -> ts' = ts) /\
+             line_tags go_is_letter go_to_lower line = map (tag_of_view go_to_lower) ts.
+Proof. exact go_line_tags_spec. Qed.
+Print Assumptions C14_line_tags_spec.
+
+(* Summary.Tags() as coded (second regexp run inside NewTagFromString, strings.Trim of the quotes, NewTagOrPanic)
+   never panics and puts exactly those tags, in order of appearance, line after line *)
+Theorem C14_summary_tags : forall lines : list bytes,
+  go_summary_tags_o lines = Ok (summary_tags go_is_letter go_to_lower lines) /\
+  ts_original (summary_tags go_is_letter go_to_lower lines) = found_tags go_is_letter go_to_lower lines.
+Proof. exact go_summary_tags. Qed.
+Print Assumptions C14_summary_tags.
+
+(* \p{L} of the model is membership in the generated ranges of unicode.L *)
+Theorem C14_letter_table : forall r, go_is_letter r = true <-> exists lo hi, In (lo, hi) unicode_L /\ lo <= r <= hi.
+Proof. exact go_is_letter_spec. Qed.
+Print Assumptions C14_letter_table.
+
+(* ---------- 2. matching ---------- *)
+
+(* two tags are the same tag iff their names agree after lower-casing rune by rune and their values agree literally *)
+Theorem C14_tag_eq_spec : forall n1 v1 n2 v2 : bytes,
+  mk_tag go_to_lower n1 v1 = mk_tag go_to_lower n2 v2 <->
+  map go_to_lower (utf8_decode n1) = map go_to_lower (utf8_decode n2) /\ v1 = v2.
+Proof. exact (tag_eq_spec go_to_lower go_lower_scalar). Qed.
+Print Assumptions C14_tag_eq_spec.
+
+(* Contains: a query matches a summary iff some tag found in it has the query's name and either the query has
+   no value (a tag with value also matches its bare name) or the very same value *)
+Theorem C14_contains_spec : forall (lines : list bytes) (q : tag),
+  ts_contains (summary_tags go_is_letter go_to_lower lines) q =
+  existsb (fun t => bytes_eqb (t_name t) (t_name q) && (is_nil (t_value q) || bytes_eqb (t_value t) (t_value q)))
+          (found_tags go_is_letter go_to_lower lines).
+Proof. exact (contains_spec go_is_letter go_to_lower go_lower_idem go_lower_scalar). Qed.
+Print Assumptions C14_contains_spec.
+
+(* NewTagFromString (the --tag argument, any bytes): `#` is prepended when missing, the leftmost match must span the
+   whole string, the result is the tag that match denotes; it never panics *)
+Theorem C14_query_tag : forall s : bytes,
+  go_new_tag_from_string s =
+  match find_first go_is_letter sym fst (decode_syms (with_hash s)) with
+  | Some m => if Nat.eqb (length (raw (m_all m))) (length (with_hash s)) then Ok (Some (tag_of_match go_to_lower m)) else Ok None
+  | None => Ok None
+  end.
+Proof. exact (new_tag_from_string_spec go_is_letter go_to_lower go_dq_not_letter go_sq_not_letter). Qed.
+Print Assumptions C14_query_tag.
+
+Theorem C14_query_tag_never_panics : forall s : bytes, exists o, go_new_tag_from_string s = Ok o.
+Proof. exact (new_tag_from_string_total go_is_letter go_to_lower go_dq_not_letter go_sq_not_letter). Qed.
+Print Assumptions C14_query_tag_never_panics.
+
+(* isSubsetOf: all queried tags are contained *)
+Theorem C14_subset_spec : forall qs ts, is_subset_of qs ts = true <-> forall q, In q qs -> ts_contains ts q = true.
+Proof. exact is_subset_spec. Qed.
+Print Assumptions C14_subset_spec.
+
+(* Merge walks Go maps: whatever the iteration orders, the merged set contains the same tags *)
+Theorem C14_merge_order_irrelevant : forall ls ls' : list (list tag), Forall2 (@Permutation tag) ls ls' ->
+  forall q, ts_contains (merge_lists go_to_lower ls) q = ts_contains (merge_lists go_to_lower ls') q.
+Proof. exact (merged_order_irrelevant go_to_lower). Qed.
+Print Assumptions C14_merge_order_irrelevant.
+
+(* ---------- 3. totals ---------- *)
+
+(* whenever AggregateTotalsByTags returns: for EVERY key (tag or tag=value) the reported (total, count) is the sum
+   and the number of the entries whose own or whose record's summary carries a matching tag — each entry once,
+   whatever the redundancy —, a key no entry carries is not reported, the list is sorted by name=value and no key
+   appears twice *)
+Theorem C14_tag_totals : forall (rs : list record) (out : list stat), go_aggregate_o rs = Ok out ->
+  (forall k, stat_find k out = agg_expect (matching go_is_letter go_to_lower rs k)) /\
+  Sorted (fun a b => bytes_ltb (tag_key (st_tag b)) (tag_key (st_tag a)) = false) out /\
+  NoDup (tags_of out).
+Proof. exact (tag_totals go_is_letter go_to_lower go_dq_not_letter go_sq_not_letter go_lower_idem go_lower_scalar). Qed.
+Print Assumptions C14_tag_totals.
+
+(* the guard: it returns as long as the absolute durations of all entries together fit an int64 *)
+Theorem C14_tag_totals_no_overflow : forall rs : list record, (sum_abs rs <= max_int64)%Z ->
+  exists out, go_aggregate_o rs = Ok out.
+Proof. exact (tag_totals_no_overflow go_is_letter go_to_lower go_dq_not_letter go_sq_not_letter). Qed.
+Print Assumptions C14_tag_totals_no_overflow.
+
+(* no two reported keys are equal (a tag name never holds `=`): the list is strictly increasing in name=value *)
+Theorem C14_tag_totals_strict : forall (rs : list record) (out : list stat), go_aggregate_o rs = Ok out ->
+  StronglySorted (fun a b => bytes_ltb (tag_key (st_tag a)) (tag_key (st_tag b)) = true) out.
+Proof. exact (tag_totals_strict go_is_letter go_to_lower go_dq_not_letter go_sq_not_letter go_eq_not_letter
+                                go_lower_idem go_lower_scalar go_lower_not_eq). Qed.
+Print Assumptions C14_tag_totals_strict.
+
+(* hence the order in which Go walks its maps (Merge, the loop over the merged set, toSortedList) cannot reach
+   the output: ANY list holding the same dictionary, no key twice, sorted by name=value, is the model's output *)
+Theorem C14_tag_totals_determined : forall (rs : list record) (out out' : list stat), go_aggregate_o rs = Ok out ->
+  NoDup (tags_of out') -> (forall k, stat_find k out' = stat_find k out) ->
+  Sorted (fun a b => bytes_ltb (tag_key (st_tag b)) (tag_key (st_tag a)) = false) out' -> out' = out.
+Proof. exact (tag_totals_determined go_is_letter go_to_lower go_dq_not_letter go_sq_not_letter go_eq_not_letter
+                                    go_lower_idem go_lower_scalar go_lower_not_eq). Qed.
+Print Assumptions C14_tag_totals_determined.
+
+(* ---------- non-vacuity ---------- *)
+
+(* mixed case, a quoted value with a blank, a non-ASCII name, an unterminated quote (value absent, the text
+   after it is scanned on), an empty value, adjacent tags, `#` without a name *)
+Example C14_example_recognise :
+  let line := b!"Hi #Foo=bar #foo=""x y"" #読-1 #q='it #B= #c#d # ##e=É." in
+  ~ In ch_nl line /\
+  line_tags go_is_letter go_to_lower line =
+    [ex_tag b!"foo" b!"bar"; ex_tag b!"foo" b!"x y"; ex_tag b!"読-1" []; ex_tag b!"q" []; ex_tag b!"b" [];
+     ex_tag b!"c" []; ex_tag b!"d" []; ex_tag b!"e" b!"É"].
+Proof. split; [apply not_in_bytes_dec; vm_compute; reflexivity | vm_compute; reflexivity]. Qed.
+
+Example C14_example_contains :
+  let ts := summary_tags go_is_letter go_to_lower [b!"#Foo=bar and"; b!"#baz"] in
+  ts_contains ts (ex_tag b!"foo" []) = true /\ ts_contains ts (ex_tag b!"foo" b!"bar") = true /\
+  ts_contains ts (ex_tag b!"foo" b!"BAR") = false /\ ts_contains ts (ex_tag b!"baz" b!"1") = false /\
+  go_new_tag_from_string b!"FOO=bar" = Ok (Some (ex_tag b!"foo" b!"bar")).
+Proof. vm_compute. repeat split; reflexivity. Qed.
+
+(* a record tag applies to every entry; redundant and differently cased / quoted tags count an entry once *)
+Example C14_example_totals :
+  let rs := [ex_record [b!"#r"] [ex_entry 60 [b!"#a #a=1 #A='1'"; b!"again #a"]; ex_entry (-30) []];
+             ex_record [] [ex_entry 7 [b!"#a=2 #r=x"]]] in
+  (sum_abs rs <= max_int64)%Z /\
+  go_aggregate_o rs = Ok [ex_stat b!"a" [] 67 2; ex_stat b!"a" b!"1" 60 1; ex_stat b!"a" b!"2" 7 1;
+                          ex_stat b!"r" [] 37 3; ex_stat b!"r" b!"x" 7 1].
+Proof. split; [vm_compute; discriminate | vm_compute; reflexivity]. Qed.
